@@ -48,7 +48,7 @@ fn fuses(a: &Tok, b: &Tok) -> bool {
 const WS: &[&str] = &[" ", " ", " ", "  ", "\t", "\n", "\n", "\r\n", "\n\n", " \n  "];
 
 fn comment(src: &mut Src) -> String {
-    const BODIES: &[&str] = &["", " c ", "x;", " int y = 1; ", "\"", "'", "é中", " } ", "(", "OPENQASM 3;", "pragma p", "**", "+ -"];
+    const BODIES: &[&str] = &["", " c ", "x;", " int y = 1; ", "\"", "'", "é中", " } ", "(", "OPENQASM 3;", "pragma p", "**", "+ -", "*", "***", " note *", " x ***", "* a ** b *"];
     let b = BODIES[src.below(BODIES.len())];
     match src.below(3) {
         0 => format!("//{b}\n"),
